@@ -421,3 +421,18 @@ pub fn large_family() -> Vec<State> {
     }
     out
 }
+
+/// All subsets of `n` flat (prefix-unrelated) keys of one author: exercises the range splitting
+/// arithmetic with every combination of set sizes up to n.
+pub fn flat_states(n: usize) -> Vec<State> {
+    let keys: [&[u8]; 10] = [b"k0", b"k1", b"k2", b"k3", b"k4", b"k5", b"k6", b"k7", b"k8", b"k9"];
+    let mut out = vec![];
+    for mask in 0u32..(1 << n) {
+        let offered: Vec<Spec> = (0..n)
+            .filter(|i| mask >> i & 1 == 1)
+            .map(|i| Spec::new(0, 0, keys[i], 1, Val::X))
+            .collect();
+        out.push(state_of(offered));
+    }
+    out
+}
